@@ -41,6 +41,7 @@ EXPLANATION += (' R-C13-10: no broadcast frame is built as pd.DataFrame(<list of
 EXPLANATION += (" R-C13-11: the rule R-C12-8 evaluated for this property (the consumer of the broadcast in the mean stress transformation of a matrix puts the levels of the broadcast result into the order of the matrix and re-indexes it by the matrix's index before anything is combined by position).")
 EXPLANATION += (" R-C13-12: the index levels cached by the broadcaster are read as pandas Index objects only - not through .values / .to_numpy() / np.asarray / .tolist(), which change the type of time-zone aware, categorical, interval and nullable keys.")
 EXPLANATION += (" R-C13-1 covers exceptional exits too (defect repaired in /repo 4dafbb3): each acquisition (placeholder names, index re-coding) is immediately followed by a try statement whose finally clause contains the matching release.")
+EXPLANATION += (" R-C13-13 (defect repaired in /repo faf7999): the step that turns index codes back into keys (subscript of a cached level by computed positions) is accompanied by a test for missing codes; after the outer alignment of partially shared levels rows that only one operand contributes have NaN codes.")
 ASSUMPTIONS = [
     "pandas DataFrame.align(Series, axis=0) may return the frame with its previous index when the joined index requires no row "
     "movement on the frame side (behaviour of the installed pandas; the repository wraps the series for that reason)",
@@ -333,6 +334,7 @@ def run(ctx):
     ctx.attempt(_r10)
     ctx.attempt(_r11)
     ctx.attempt(_r12)
+    ctx.attempt(_r13)
 
 
 def _kind_tests(test):
@@ -527,6 +529,72 @@ def key_type_losses(cls_node):
         if isinstance(base, ast.Subscript) and is_self_attr(base.value) and base.value.attr in stores:
             out.append((n, norm_text(n)[:80]))
     return out
+
+
+NA_TESTS = ("hasnans", "isna", "isnull", "notna", "notnull", "isnan")
+
+
+def unguarded_code_decodes(cls_node):
+    """positions computed from index codes are turned back into keys by subscripting a cached level (`self.<levels>[name][codes - off]`).
+    After an OUTER alignment the codes of a level that only one operand has are NaN for the rows only the other one contributes;
+    a decode that is not under (or next to) a test for missing codes raises IndexError there: [(subscript node, enclosing def)]"""
+    stores = set()
+    for n in ast.walk(cls_node):
+        if isinstance(n, ast.Assign):
+            for t in n.targets:
+                if isinstance(t, ast.Subscript) and is_self_attr(t.value) and isinstance(n.value, ast.Call) and \
+                        isinstance(n.value.func, ast.Attribute) and n.value.func.attr in ("unique", "get_level_values", "append", "drop_duplicates", "union"):
+                    stores.add(t.value.attr)
+    out = []
+    for n in ast.walk(cls_node):
+        if isinstance(n, ast.Subscript) and isinstance(n.value, ast.Subscript) and is_self_attr(n.value.value) and \
+                n.value.value.attr in stores and isinstance(n.ctx, ast.Load) and not isinstance(n.slice, ast.Constant):
+            fn = n
+            while not isinstance(fn, (ast.FunctionDef, ast.Lambda)):
+                fn = fn._parent
+            guarded = any((isinstance(x, ast.Attribute) and x.attr in NA_TESTS) or
+                          (isinstance(x, ast.Call) and (call_name(x) or "").split(".")[-1] in NA_TESTS)
+                          for t in ast.walk(fn) if isinstance(t, (ast.If, ast.IfExp)) for x in ast.walk(t.test))
+            if not guarded:
+                out.append((n, fn))
+    return out
+
+
+def _r13(ctx):
+    """R-C13-13: 'NaN where the original had no such key ... for partially shared index levels'.  Operands with shared levels are
+    aligned with an outer join; rows that only one operand contributes have no code for the levels only the other one has.  The
+    step that turns codes back into keys must provide for missing codes (a test for NaN codes next to the positional decode);
+    a bare `levels[codes - offset]` raises IndexError for exactly the inputs the clause is about."""
+    prog = ctx.prog
+    ctx.rule("R-C13-13", floor=1, what="codes are turned back into keys with a provision for missing codes")
+    from ..frontend import set_parents
+    ex = set_parents(ast.parse("class K:\n    def __init__(self, o):\n        self.lv = {}\n        self.lv['a'] = o.index.get_level_values('a').unique()\n"
+                               "    def back(self, c):\n        return self.lv['a'][c - 3]\n"
+                               "    def back2(self, c):\n        p = pd.Index(c - 3)\n        if not p.hasnans:\n            return self.lv['a'][p]\n        return pd.Index(pd.Series(self.lv['a']).reindex(p))\n")).body[0]
+    if len(unguarded_code_decodes(ex)) != 1:
+        raise AnalysisError("R-C13-13 built-in example not matched")
+    n = 0
+    for k, ci in sorted(prog.classes.items()):
+        if ci.module.name != MOD:
+            continue
+        decodes = [x for x in ast.walk(ci.node) if isinstance(x, ast.Subscript) and isinstance(x.value, ast.Subscript) and
+                   is_self_attr(x.value.value) and not isinstance(x.slice, ast.Constant) and isinstance(x.ctx, ast.Load)]
+        if not decodes:
+            continue
+        bad = unguarded_code_decodes(ci.node)
+        for node, fn in bad:
+            n += 1
+            fi = next((f[-1] for f in ci.methods.values() if any(x is node for x in ast.walk(f[-1].node))), ci.key)
+            ctx.violated(fi, node, "%s turns codes back into keys with %s and no provision for missing codes: after the outer alignment "
+                         "of partially shared levels a row that one operand lacks has NaN as code of the other's own levels - "
+                         "IndexError instead of a row with NaN (obj over (a, b, d), parameter over (a, b) with a key obj does not have)"
+                         % (ci.name, norm_text(node)[:70]), text="code decode without provision for missing codes")
+        for node in decodes:
+            if not any(node is b for b, _ in bad):
+                n += 1
+                ctx.holds(ci.key, node, "%s: decode %s is accompanied by a test for missing codes" % (ci.name, norm_text(node)[:50]))
+    if n == 0:
+        raise AnalysisError("no decode of index codes found in the broadcaster module")
 
 
 def _r12(ctx):
@@ -763,8 +831,18 @@ def _r5(ctx, cache):
                          "range 0..n-1, so the re-coded indices of operands with different level names or orders (e.g. (A,B) "
                          "against (B,C) with equally sized levels) compare equal and align() returns them un-aligned" %
                          (f.name, norm_text(c)), text="bare positions " + f.name + " " + (norm_text(c.args[0])[:40] if c.args else ""))
+    def _decoded_positions(f, sl):
+        """the subscript expression with single-definition locals of the (possibly nested) function resolved and value-preserving
+        index constructors stripped: positions = pd.Index(codes - off); levels[positions]"""
+        fn = sl
+        while not isinstance(fn, (ast.FunctionDef, ast.Lambda)):
+            fn = fn._parent
+        e = inline_single_defs(fn, sl, depth=3) if isinstance(fn, ast.FunctionDef) else sl
+        while isinstance(e, ast.Call) and (call_name(e) or "") in ("pd.Index", "np.asarray", "pd.array", "np.array") and len(e.args) == 1:
+            e = e.args[0]
+        return e
     for f, n in dec:
-        got = offset_term(n.slice, ast.Sub)
+        got = offset_term(_decoded_positions(f, n.slice), ast.Sub)
         lvl = level_key(n.value)
         if got and got[1] == lvl and (not tables or got[0] in tables):
             ctx.holds(f, n, "%s: decode subtracts the same per-level offset" % f.name)
